@@ -8,6 +8,7 @@ pub mod c06;
 pub mod c07;
 pub mod c08;
 pub mod c09;
+pub mod c13;
 pub mod c14;
 pub mod c18;
 pub mod c19;
@@ -23,6 +24,7 @@ pub fn lookup(id: &str) -> Option<Property> {
         "C07" => c07::property(),
         "C08" => c08::property(),
         "C09" => c09::property(),
+        "C13" => c13::property(),
         "C14" => c14::property(),
         "C18" => c18::property(),
         "C19" => c19::property(),
